@@ -144,6 +144,105 @@ fn run_case(c: &Case, acc: &mut Acc) {
     acc.sample(c.repr());
 }
 
+/// Words in which the reference is glued to literal text, including literal operator characters that are ordinary
+/// characters inside a word (`x&y$V`, `a=1&b=${V}`): differential oracle — the plan must be the plan obtained with a
+/// neutral payload, with the neutral text replaced by the payload (the structure does not depend on the value).
+pub const GLUES: [&str; 8] = ["p{}", "{}s", "x&y{}", "{}x&y", "u=1&v={}", "a.b:{}", "-o{}", "x%{}+y"];
+const NEUTRAL: &str = "QNEUTRALQ";
+
+#[derive(Clone)]
+pub struct GlueCase {
+    payload: usize,
+    delivery: usize,
+    glue: usize,
+    last: bool,
+}
+
+impl GlueCase {
+    fn line(&self) -> String {
+        let c = match DELIVERY[self.delivery] {
+            "${V}" => "${V}".to_string(),
+            "$(vh-emit K)" => "$(vh-emit V)".to_string(),
+            "`vh-emit K`" => "`vh-emit V`".to_string(),
+            _ => "$V".to_string(),
+        };
+        let w = GLUES[self.glue].replace("{}", &c);
+        if self.last { format!("vh-argv y {}", w) } else { format!("vh-argv y {} z", w) }
+    }
+}
+
+impl CaseRepr for GlueCase {
+    fn repr(&self) -> Value {
+        json!({"line": self.line(), "payload": PAYLOADS[self.payload], "delivery": DELIVERY[self.delivery], "word": GLUES[self.glue]})
+    }
+}
+
+fn plan_with(c: &GlueCase, value: &str) -> Vec<Result<plan::PlanView, String>> {
+    let mut sh = vh::Shell::new();
+    std::env::remove_var("V");
+    match DELIVERY[c.delivery] {
+        "$V-local" => sh.set_env("V", value),
+        "$V" | "${V}" => std::env::set_var("V", value),
+        _ => {
+            let _ = std::fs::write("emit.V", format!("{}\n", value));
+        }
+    }
+    plan::plan_line(&mut sh, &c.line())
+}
+
+fn run_glue_case(c: &GlueCase, acc: &mut Acc) {
+    acc.eval();
+    let p = PAYLOADS[c.payload];
+    let reference = plan_with(c, NEUTRAL);
+    let got = plan_with(c, p);
+    let render = |v: &Vec<Result<plan::PlanView, String>>, from: &str, to: &str| -> String {
+        let parts: Vec<String> = v.iter().map(|r| match r {
+            // (the quote tag of a token is not compared: a value with operator characters is tagged as data)
+            Ok(pl) => format!("bg={} envs={:?} cmds={:?}", pl.background, pl.envs,
+                              pl.commands.iter().map(|c| (c.tokens.iter().map(|t| t.1.clone()).collect::<Vec<_>>(), c.redirects_to.clone(), c.redirect_from.clone())).collect::<Vec<_>>()),
+            Err(e) => format!("ERR {}", e),
+        }).collect();
+        parts.join(" || ").replace(from, to)
+    };
+    // the payload may be split at blanks in an unquoted word: compare with the reference planned for each blank-free
+    // payload only (payloads with a blank are compared on structure: number of segments / commands / redirections)
+    let want = render(&reference, NEUTRAL, p);
+    let have = render(&got, NEUTRAL, p);
+    let structural = |v: &Vec<Result<plan::PlanView, String>>| -> String {
+        v.iter().map(|r| match r {
+            Ok(pl) => format!("cmds={} bg={} envs={} redirs={}", pl.commands.len(), pl.background, pl.envs.len(),
+                              pl.commands.iter().map(|c| c.redirects_to.len() + c.redirect_from.is_some() as usize).sum::<usize>()),
+            Err(e) => format!("ERR {}", e),
+        }).collect::<Vec<_>>().join(" || ")
+    };
+    let ok = if p.contains(' ') { structural(&reference) == structural(&got) } else { want == have };
+    if ok {
+        acc.nontrivial();
+        acc.outcome("data:glued-word");
+        acc.state(&format!("{}|{}", c.line(), have));
+    } else {
+        acc.outcome("deviation:glued-word");
+        acc.violation(&format!("structure-depends-on-value:{}:{}:{}", DELIVERY[c.delivery], GLUES[c.glue], p), c.repr(), json!({"plan_with_neutral_value_then_substituted": want}), json!({"plan": have}));
+    }
+}
+
+fn glue_cases() -> Box<dyn Iterator<Item = GlueCase>> {
+    let mut v = Vec::new();
+    for payload in 0..PAYLOADS.len() {
+        for delivery in 0..DELIVERY.len() {
+            if matches!(DELIVERY[delivery], "glob" | "$(printf %s 'P')" | "`printf %s 'P'`") {
+                continue;
+            }
+            for glue in 0..GLUES.len() {
+                for last in [false, true] {
+                    v.push(GlueCase { payload, delivery, glue, last });
+                }
+            }
+        }
+    }
+    Box::new(v.into_iter())
+}
+
 fn cases() -> Box<dyn Iterator<Item = Case>> {
     let mut v = Vec::new();
     for payload in 0..PAYLOADS.len() {
@@ -159,6 +258,10 @@ fn cases() -> Box<dyn Iterator<Item = Case>> {
         }
     }
     Box::new(v.into_iter())
+}
+
+fn opts_clone(o: &SweepOpts) -> SweepOpts {
+    SweepOpts { workers: o.workers, case_limit: o.case_limit, deadline: o.deadline, scratch: o.scratch.clone(), label: o.label.clone(), samples_per_worker: o.samples_per_worker }
 }
 
 pub fn run(ctx: &Ctx) -> Value {
@@ -177,6 +280,7 @@ pub fn run(ctx: &Ctx) -> Value {
     std::env::set_var("VH_DIR", &cwd);
     std::env::set_var("VH_LOG", format!("{}/vh.log", cwd));
     std::env::set_var("HOME", &cwd);
+    std::fs::write(format!("{}/emit.V", cwd), b"x\n").unwrap();
     let before: std::collections::BTreeSet<String> = std::fs::read_dir(&cwd).unwrap().flatten().map(|e| e.file_name().to_string_lossy().to_string()).collect();
     let deadline = Instant::now() + Duration::from_secs(if ctx.thorough() { 600 } else { 40 });
     let opts = SweepOpts {
@@ -191,7 +295,11 @@ pub fn run(ctx: &Ctx) -> Value {
     let t = Instant::now();
     let mut total = SweepResult::default();
     let r = explore::par_sweep(cases, run_case, &opts);
-    let levels = vec![json!({"layer": "payloads x deliveries x quote x positions", "cases": r.cases, "complete": !r.capped, "wall_s": t.elapsed().as_secs_f64()})];
+    let mut levels = vec![json!({"layer": "payloads x deliveries x quote x positions", "cases": r.cases, "complete": !r.capped, "wall_s": t.elapsed().as_secs_f64()})];
+    total.merge(r);
+    let t = Instant::now();
+    let r = explore::par_sweep(glue_cases, run_glue_case, &SweepOpts { workers: 1, label: "c13g".into(), ..opts_clone(&opts) });
+    levels.push(json!({"layer": "reference glued to literal text (8 word shapes, incl. literal & inside the word) x payloads x deliveries x {last, not last}; differential against a neutral value", "cases": r.cases, "complete": !r.capped, "wall_s": t.elapsed().as_secs_f64()}));
     total.merge(r);
     // planning must not have created or touched any file in the directory
     let after: std::collections::BTreeSet<String> = std::fs::read_dir(&cwd).unwrap().flatten().map(|e| e.file_name().to_string_lossy().to_string()).collect();
